@@ -10,7 +10,8 @@ import (
 // (Type("Slug", String, func() { Pattern(...) })): attributes of those types in every request
 // location and in response headers and bodies, as array elements and map values, and — in the odd
 // designs — with an Enum of their own whose members partly violate the alias's rules (the only
-// validation the DSL accepts on an attribute of an alias type).
+// validation the DSL accepts on an attribute of an alias type). Some optional attributes carry a
+// default value of their own.
 func GenerateAlias(r *lp.Rng, index int) *Design {
 	d := &Design{API: "al" + fmt.Sprint(index)}
 	type alias struct {
@@ -48,6 +49,9 @@ func GenerateAlias(r *lp.Rng, index int) *Design {
 		required := (index/10+k)%2 == 0 || loc == "path"
 		if required {
 			payload.Required = append(payload.Required, name)
+		} else if (index+k/2)%2 == 0 {
+			// a default of the attribute's own (the alias type has none)
+			att.Default, att.HasDef = a.enum[0], true
 		}
 		payload.Type.Object = append(payload.Type.Object, &Field{Name: name, Att: att})
 		switch loc {
